@@ -561,9 +561,12 @@ pub fn corrupt(cfg: &Cfg, c: &Corruption) -> Option<Vec<String>> {
             if matches!(s, Slot::Set(_)) {
                 return None;
             }
+            // an unknown name, or a documented name cut short (a prefix is not a name)
+            const BAD: [&str; 8] = ["&no-such-context", "&inde", "&started-at", "&", "&file-nam", "&index-in-fil", "&ended-at-line", "&started-at-char"];
+            let bad = BAD[(cfg.args(None).join(" ").len() + cfg.skip as usize) % BAD.len()];
             let t = match s {
-                Slot::Select(i) => format!("&no-such-context = n{}", i),
-                _ => "&no-such-context".to_string(),
+                Slot::Select(i) => format!("{} = n{}", bad, i),
+                _ => bad.to_string(),
             };
             Some(cfg.args(Some((s, t))))
         }
